@@ -59,6 +59,9 @@ chk("C19", "exploration", "deterministic simulation: normal-form histories execu
 chk("C20", "exploration", "deterministic simulation: normal-form histories on v2 with close/reopen points, LoadVersion of every retained target on fresh handles, continuation from loaded versions, DeleteVersionsTo whose asynchronous progress in both writer loops is owned by the simulator through guarded prune gates (0, 1, few, all steps granted), snapshots (save / export pre|post + import)",
     "Reload of every retained version vs R1/R2, continuation hashes vs the uninterrupted run, loadability after pruning whatever the prune progress at close, snapshot import; prune progress tokens make 'close immediately', 'save interrupts a half-done prune' and 'prune completes' replayable.", "Clean close/reopen only: point-in-time crash images of SQLite files cannot be produced deterministically from outside. SQLite trusted. " + N, "DESIGN.md §5 C20")
 
+chk("C13", "exploration", T + "raw-disk format audit with an independent codec after every structural step (library -> independent decoder), database images written by the independent encoder and opened by the library, and stored-byte corruption faults / mutated encodings against every decoder",
+    "Both directions of the format check on seeded histories; decoder totality by direct calls on mutated valid encodings and random bytes (bit flips, truncation, extension, length inflation, valid prefix + garbage) and by corrupting stored root nodes, root markers, fast nodes, the label and leaves on the simulated disk before the calls that decode them.", N + " Totality is sampled, not proved; wrong data from corrupted payloads is not judged (no checksums in the format).", "DESIGN.md §5 C13")
+
 NOT_YET = {
 }
 
